@@ -22,7 +22,8 @@ RULE = ("per-run seed -> one document-level operation sequence organised in roun
         "merging, then default-policy commits: many equal-sized segments); the schema may hold a dynamic (glob) field. Every layout's full logical dump after every commit must equal the model; "
         "group members must stay adjacent and in order; optimize must physically drop deleted documents and removed "
         "fields; without deletions collection statistics must not depend on the layout. Non-trivial = >=2 layouts, each "
-        "with >=1 commit; distinct = distinct SHA-256 over the layouts' event logs.")
+        "with >=1 commit; distinct = distinct SHA-256 over the layouts' event logs."
+        ' 20% of runs end every layout with remove_field + ix.optimize(): the removed field must be physically gone.')
 ASSUMPTIONS = ["document order between separately added documents is not part of the logical content (merges may permute segments); order inside a group is",
                "the key discipline of C07 is applied so that the operation sequence has the same meaning under every partition into commits",
                "analysis is trusted for deriving expected postings"]
